@@ -1,9 +1,16 @@
 package c12
 
 import (
+	"context"
 	"fmt"
+	"time"
 
 	"github.com/lindb/lindb/aggregation/function"
+	"github.com/lindb/lindb/flow"
+	"github.com/lindb/lindb/models"
+	protoCommonV1 "github.com/lindb/lindb/proto/gen/v1/common"
+	"github.com/lindb/lindb/query"
+	querycontext "github.com/lindb/lindb/query/context"
 	"github.com/lindb/lindb/series/field"
 
 	"github.com/lindb/lindb/zzverif/internal/core"
@@ -12,7 +19,7 @@ import (
 // Deterministic witness cases (case index = position): each replays one confirmed finding on the
 // real code every run and reports it under a stable key (known_findings.json). The same worlds
 // are the `Neg` theorems of LinVerif/Props/C12.lean.
-var witnesses = []func(c *core.Ctx){witnessArrivalOrder, witnessMissingField, witnessLastField, witnessTwoFunctions}
+var witnesses = []func(c *core.Ctx){witnessArrivalOrder, witnessMissingField, witnessLastField, witnessTwoFunctions, witnessReceiveOnly}
 
 func twoSeriesWorld(types ...field.Type) *World {
 	w := &World{TagKeys: []string{"host"}}
@@ -102,5 +109,123 @@ func witnessTwoFunctions(c *core.Ctx) {
 	if direct.res.rowsLine() != inter.res.rowsLine() {
 		c.Fail("two-functions-on-one-field-intermediate-changes-answer",
 			fmt.Sprintf("leaf->root: %q, leaf->intermediate->root: %q", direct.res.rowsLine(), inter.res.rowsLine()))
+	}
+}
+
+// planChooser stands for the two lines of broker.stateManager.Choose that matter here: with more
+// than one storage node and numOfNodes > 1 it answers flow.BuildPhysicalPlan over the live
+// brokers (real function).
+type planChooser struct{ live []models.StatelessNode }
+
+func (p *planChooser) Choose(db string, numOfNodes int) ([]*models.PhysicalPlan, error) {
+	return []*models.PhysicalPlan{flow.BuildPhysicalPlan(db, append([]models.StatelessNode(nil), p.live...), numOfNodes)}, nil
+}
+
+// (e) group-by query, two live brokers, more than one storage node: the root's plan (real
+// RootMetricContext.MakePlan over real flow.BuildPhysicalPlan) has two intermediate targets and
+// expects two responses, but only the first target runs the intermediate task; the second is
+// ReceiveOnly and the real intermediateTaskProcessor.Process answers nothing for it. The root never
+// completes (WaitResponse ends with the context deadline): an error instead of the answer a single
+// broker gives.
+func witnessReceiveOnly(c *core.Ctx) {
+	w := twoSeriesWorld(field.SumField)
+	// no points: which broker the plan's shuffle makes the working one (and hence which hash share
+	// it gets) must not show in the protocol; the finding is about completion, not about data
+	w.Points = nil
+	q := &QueryDef{Selects: []SelectDef{{"f1", function.Unknown}}, GroupBy: []int{0}, NumSlots: 4, Limit: 100, ftypes: ftypesOf(w)}
+	live := []models.StatelessNode{{HostIP: "1.1.1.1", GRPCPort: 9000}, {HostIP: "1.1.1.2", GRPCPort: 9000}}
+	deps := &querycontext.RootMetricContextDeps{
+		Ctx: context.Background(), Request: &models.Request{RequestID: "r1", DB: database}, Database: database,
+		CurrentNode: live[0], Statement: q.statement(w), Choose: &planChooser{live: live},
+	}
+	root := querycontext.NewRootMetricContext(deps)
+	root.SetTracker(newTracker())
+	if err := root.MakePlan(); err != nil {
+		panic(err)
+	}
+	reqs := root.GetRequests()
+	c.Op(fmt.Sprintf("new 0 %d", len(reqs)), stateLine(&root.MetricContext))
+	// every target handles the root's request with the real intermediate task processor
+	answered := 0
+	var targets []string
+	for t := range reqs {
+		targets = append(targets, t)
+	}
+	// deterministic order for the protocol (the plan's shuffle only decides WHICH broker works)
+	if len(targets) == 2 && targets[0] > targets[1] {
+		targets[0], targets[1] = targets[1], targets[0]
+	}
+	for _, t := range targets {
+		plan := &models.PhysicalPlan{}
+		if err := jsonUnmarshal(reqs[t].PhysicalPlan, plan); err != nil {
+			panic(err)
+		}
+		var me *models.Target
+		for _, tg := range plan.Targets {
+			if tg.Indicator == t {
+				me = tg
+			}
+		}
+		if me == nil || !me.ReceiveOnly {
+			// the working intermediate: real IntermediateMetricContext over one real leaf holding
+			// everything, receivers = all targets (as processDataSearch sets them); it only ever
+			// gets ITS share
+			var recv []string
+			for _, tg := range plan.Targets {
+				recv = append(recv, tg.Indicator)
+			}
+			idx := 0
+			for i, r := range recv {
+				if r == t {
+					idx = i
+				}
+			}
+			leaf := reference(w).Leaves[0]
+			rs, _, _, err := RunLeafPlan(w, q, leaf, recv)
+			if err != nil {
+				panic(err)
+			}
+			ic, err := NewIntermediate(w, q, t, []string{leaf.Name}, recv)
+			if err != nil {
+				panic(err)
+			}
+			ic.Ctx.HandleResponse(rs[idx], leaf.Name)
+			resp := ic.Finish()
+			root.HandleResponse(resp, t)
+			c.Op("resp 0 "+encodeResp(resp), stateLine(&root.MetricContext))
+			answered++
+			continue
+		}
+		cur := models.StatelessNode{}
+		for _, n := range live {
+			if n.Indicator() == t {
+				cur = n
+			}
+		}
+		proc := query.NewIntermediateTaskProcessor(cur, time.Second, nil, nil, nil)
+		st := &capStream{}
+		taskCtx := flow.NewTaskContextWithTimeout(context.Background(), time.Second)
+		err := proc.Process(taskCtx, st, reqs[t])
+		taskCtx.Release()
+		if err != nil || len(st.got) > 0 {
+			// it answered (an error response is sent by TaskHandler.process when err != nil)
+			resp := &protoCommonV1.TaskResponse{RequestID: "r1", Completed: true}
+			if err != nil {
+				resp.ErrMsg = err.Error()
+			} else {
+				resp = st.got[0]
+			}
+			root.HandleResponse(resp, t)
+			c.Op("resp 0 "+encodeResp(resp), stateLine(&root.MetricContext))
+			answered++
+		}
+	}
+	res := &Root{Ctx: root}
+	out := res.Finish()
+	c.Op(q.resultOp(0), out.line(q, nil))
+	c.NonTrivial()
+	if out.Err == "pending" {
+		c.Fail("group-by-two-brokers-receive-only-target-never-answers",
+			fmt.Sprintf("plan has %d targets, %d answered; the root waits for the ReceiveOnly target until the deadline", len(reqs), answered))
 	}
 }
